@@ -189,6 +189,7 @@ func rowsKV(rows [][2]uint64) [][]any {
 }
 
 type c12Drv struct {
+	pooled  *vegeta.Histogram
 	tr      *Tracer
 	cases   int
 	samples []any
@@ -238,6 +239,12 @@ func (d *c12Drv) run(bounds []uint64, lats []uint64, expect []int) {
 	d.cases++
 	d.tr.Emit("Reset", KV{"bounds": Bigs(bounds)})
 	h := &vegeta.Histogram{Buckets: toDurs(bounds)}
+	if d.cases%3 == 0 && d.pooled != nil {
+		// a histogram value re-used for a new round through its exported fields: counts truncated (the memory kept), new bounds
+		h = d.pooled
+		h.Buckets, h.Counts, h.Total = toDurs(bounds), h.Counts[:0], 0
+	}
+	d.pooled = h
 	d.render(h) // "also when no result was added"
 	for i, lat := range lats {
 		d.guard("Add", func() {
